@@ -38,6 +38,7 @@ def run(eng, rep) -> None:
     rep.rule("R03.1", "visitor exhaustive; every hook overridden; emitted wrapper names/arities exist in decoders.h; free template names bound")
     rep.rule("R03.2", "constructor parameters, FromJson arguments and Decode's constructor arguments iterate in one order; wire loops are id-sorted")
     rep.rule("R03.3", "enum Encode/Decode/GetSize width = enum.get_packed_size()")
+    rep.rule("R03.12", "the header generated for a model struct (fields declared fb@1, fa@0, fc@2, three different wrapper types) type-checks under clang against buffer.h/decoders.h")
     rep.rule("R03.11", "synthesised rpc type names (<name>MethodId, <name>Input, <name>Output): definitions and references derive the name identically")
     rep.rule("R03.10", "a generated Encode() starts from an empty buffer, or one pre-sized with no more than the struct's smallest encoding")
     rep.rule("R03.9", "sizes the generator reads from schema nodes are computed from the node's current content (no value cached at construction from a list that other code changes)")
@@ -110,6 +111,8 @@ def run(eng, rep) -> None:
     # free names of fcp.h.j2 at its render sites
     jb = JinjaBinding(eng)
     presize_rule(eng, rep, jb)
+    from .struct_codec import run_struct_rules
+    run_struct_rules(eng, rep, None, "R03.2", "R03.12")
     synth_name_rule(eng, rep, jb)
     sites = [s for s in jb.sites if s.template == "fcp.h.j2"]
     rep.floor("R03.1", "render sites of fcp.h.j2", len(sites), 1)
